@@ -24,6 +24,10 @@ CHECKS = {
          'sampled; uses the tutorial context role provider (the anchored implementation); explicit non-associated proposals keep their value', '6 (C10)'),
  'C20': ('exploration', 'seeded histories of provider transactions and text-store additions through the simulated stack, queries on the quiescent provider compared with a reference selection written from the BICEPS rules (history half of the technique only: no fault or schedule dimension, the concurrent case is C07)',
          'sampled histories and handle / filter lists; for size constraints only soundness of the returned texts is demanded', '6 (C20)'),
+ 'C14': ('exploration', 'seeded search over discovery histories (publish / clear / search / adversary announcements with arbitrary metadata versions, missing parts and repeated ids, id-memory floods) on a simulated UDP network with loss, duplication and delay; reference matcher and table model evaluated after every message a node acts on',
+         'sampled; UDP sockets simulated; announcements without AppSequence ignored as the library does; only rfc3986 and strcmp0 rules judged', '6 (C14)'),
+ 'C15': ('exploration', 'same simulated discovery sessions; the virtual clock timestamps every queue entry and datagram, half of the runs force boundary outcomes of the random draws; per message: count, initial delay, first gap window, doubling with cap, send raster, loop-back suppression',
+         'sampled draws (boundary-biased); send raster tolerance 0.12 s; loop-back judged while the id is within the 200-id memory', '6 (C15)'),
 }
 TECH = 'deterministic simulation with fault injection (seeded scheduler + virtual clock + simulated network, fork per run, ddmin replay)'
 
